@@ -404,13 +404,15 @@ func runC10(c *run.Ctx) {
 	if !c.Quick() {
 		k = 4
 	}
-	for _, el := range c10Elements {
-		for _, sep := range []string{"; ", ";"} {
-			kk := k
-			if sep == ";" {
-				kk = k - 1
-			}
-			SeqsS(c, "c10"+el+sep, texts, 0, kk, func(_ []byte, idx []int) {
+	// (the element varies fastest, so that consecutive calls on one policy object mix element classes: state that one
+	// call leaves behind in the policy then shows on the next element within a few calls)
+	for _, sep := range []string{"; ", ";"} {
+		kk := k
+		if sep == ";" {
+			kk = k - 1
+		}
+		SeqsS(c, "c10"+sep, texts, 0, kk, func(_ []byte, idx []int) {
+			for _, el := range c10Elements {
 				doc, frs := c10Doc(el, idx, sep)
 				c.States++
 				set := bs
@@ -460,8 +462,8 @@ func runC10(c *run.Ctx) {
 						c.Outcome("style-kept")
 					}
 				}
-			})
-		}
+			}
+		})
 	}
 	if c.Shard == 0 {
 		c.Notes["policies"] = float64(len(bs))
